@@ -129,3 +129,8 @@ Definition check_norm_case (x : norm_case) : bool :=
              all_eqb Bool.eqb n1 n2 && all_eqb Nat.eqb p1 p2 && all_eqb Nat.eqb m1 m2
              && all_eqb (all_eqb Bool.eqb) t1 t2)
           (do ni <- normalize t; Ok (negations ni, permutation ni, mapping ni, norm_table ni)) expected.
+
+(* decoding alone: (bytes, result of decode_circuit) *)
+Definition decode_case : Type := (list N * res circuit)%type.
+Definition check_decode_case (x : decode_case) : bool :=
+  res_eqb circuit_eqb (decode_circuit (bl (fst x))) (snd x).
